@@ -1350,7 +1350,7 @@ _add("C20", "partial", [
 # ---- gaps of the honesty pass closed by theorems (branch wip-c11b): C11 converse of eof_at_end, grammar reading without SideOK,
 #      string-fault upper bound; C14 typed UTF-8; C12 'Syntax otherwise' and typed values.
 PROPS["C11"]["level_text"] += (
-    " Eof-classified errors, conversely (Proofs/EofViable.lean): c11_eof_viable / c11_eof_viable_ignored - the input (minus the k <= 3 "
+    " Eof-classified errors, conversely (Proofs/EofViable.lean): c11_eof_viable / c11_eof_viable_plain / c11_eof_viable_ignored - the input (minus the k <= 3 "
     "unchecked bytes of a \\u group it ends in) has a NON-EMPTY continuation that is accepted, under SideOK for Value and "
     "unconditionally for skipped content; c11_eof_viable_grammar / c11_eof_proper_prefix - for every target, unconditionally, it is a "
     "proper prefix of an RFC 8259 JSON text. The property's grammar reading without any state predicate (Proofs/EarliestSim.lean: "
